@@ -71,6 +71,14 @@ def FPSORT(bits):
 RNE = z3.RNE()
 
 
+def _contains_ite(e, depth=0):
+    if z3.is_app_of(e, z3.Z3_OP_ITE):
+        return True
+    if depth > 5:
+        return False
+    return any(_contains_ite(c, depth + 1) for c in e.children())
+
+
 def mul_wrapped(x, y, signed):
     """the W-bit (wrapped) product; up to 32 bits it is taken from the same exact 2W-bit product that mul_fits uses, so that
     implementation and specification share one multiplier term"""
@@ -467,7 +475,7 @@ class Exec:
         out = []
         bad = []
         nonnull = [rid for rid in p.regions if rid != 0 and rid in self.regions]
-        if len(nonnull) == 1 and (self.regions[nonnull[0]].kind == 'elems' or not z3.is_app_of(z3.simplify(p.bv), z3.Z3_OP_ITE)):
+        if len(nonnull) == 1 and (self.regions[nonnull[0]].kind == 'elems' or not _contains_ite(z3.simplify(p.bv))):
             # a pointer derived from exactly one object: it is taken to point into that object, and the access generates a
             # bounds obligation on the offset (an out-of-object pointer shows up there); NULL-ness is an obligation too
             r = self.regions[nonnull[0]]
